@@ -2,17 +2,26 @@ import Cactus.Lemmas.Final
 import Cactus.Lemmas.Complete
 import Cactus.Lemmas.Basic
 import Cactus.Lemmas.Orphan
-import Cactus.Props.C13
+import Cactus.Props.C13   -- only for `runWith` (`run` with an explicit step budget)
 /-!
 # C03 — an orphaned adopted group is destroyed in full by the drop that orphans it
 
 KNOWN FINDING D5: the property is false of the code when the dropped object's own count reaches
 zero while it has adoptions (`Rc::drop` then takes the no-trace path, drop.rs:147-150).
 `C03_counterexample` is the machine-checked witness; the harness replays it on the real code on
-every run (corpus `d5_joint_orphan.ops`).  What does hold: the last-handle rule (below) and the
-group rule on the trace path (`Cactus.Lemmas.Orphan`: when the orphan test passes, the keys of the
-cycle map are exactly the objects reachable through recorded adoptions, and `dropCycle` marks
-every one of them dead and moves its value out in the same machine step).
+every run (corpus `d5_joint_orphan.ops`).  What does hold and is proved here:
+* one-step lemmas: `C03_last_handle`, `C03_last_handle_with_adoptions` (the last-handle rule),
+  `C03_group_is_reach_set`, `C03_group_rule` (on the trace path: when the orphan test passes, the
+  keys of the cycle map are exactly the objects reachable through recorded adoptions, and that very
+  machine step marks every one of them dead, moves its value out and schedules its destructor),
+  `C03_no_stale_record_under_contract`;
+* a positive instance of the group rule with all eleven hypotheses discharged
+  (`C03_group_rule_instance`: ring with tail, an outsider, a Weak);
+* whole histories, no hypothesis: `C03_no_live_object_without_a_handle`,
+  `C03_handleless_object_is_destroyed` (collection is synchronous: at operation boundaries every
+  live object has a handle).
+Not proved (false): the group rule on the zero-count path, see D5 above.
+`Cactus.Props.C13` is imported only for `runWith` (`run` with an explicit step budget).
 -/
 namespace Cactus
 open State
@@ -73,9 +82,172 @@ and the contract: `noStale_of_P`), then that very machine step marks **every** m
 every member's value out and schedules all their destructors above the rest of the stack, i.e.
 they run before the drop returns.  The zero-count path is the known finding D5 above. -/
 
-theorem C03_group_rule : type_of% @C03_group_collected := @C03_group_collected
-theorem C03_last_handle_with_adoptions : type_of% @C03_last_handle_links := @C03_last_handle_links
-theorem C03_no_stale_record_under_contract : type_of% @noStale_of_P := @noStale_of_P
+/-- **C03, group rule on the trace path.**  `s.decTop rest x ob n` is the state in which the trace
+of `Rc::drop` runs: the `rcDrop x` frame popped, the strong count of `x` decremented to `n + 1`;
+`FwdReach s1 x m`: `m` is reachable from `x` through recorded adoptions (Forward entries). -/
+theorem C03_group_rule (s : State) (x : Nat) (rest : List Frame) (ob : Obj) (n : Nat) (t : Table)
+    (herr : s.err = none) (hI : s.Inv) (hst : s.stack = .rcDrop x :: rest)
+    (hc : s.cell x = some ob) (hs : ob.strong = .cnt (n + 2)) (hl : ob.links = some t)
+    (hne : t.isEmpty = false)
+    (hi : ∀ m, FwdReach (s.decTop rest x ob n) x m →
+      (s.decTop rest x ob n).ext m = 0 ∧ (s.decTop rest x ob n).pend m = 0)
+    (hii : ∀ m a, FwdReach (s.decTop rest x ob n) x m → ¬ FwdReach (s.decTop rest x ob n) x a →
+      (s.decTop rest x ob n).isLive a = true → (s.decTop rest x ob n).H a m = 0)
+    (hiii : ∀ m a, FwdReach (s.decTop rest x ob n) x m → FwdReach (s.decTop rest x ob n) x a →
+      (s.decTop rest x ob n).H a m ≤ (s.decTop rest x ob n).F a m)
+    (hiv : ∀ m a, FwdReach (s.decTop rest x ob n) x m → ¬ FwdReach (s.decTop rest x ob n) x a →
+      (s.decTop rest x ob n).isLive a = true → (s.decTop rest x ob n).F a m = 0) :
+    let s1 := s.decTop rest x ob n
+    let tr := cycleRefs s1 x
+    let s2 := s1.emit (.traced x tr.visited.length tr.popped)
+    tr.cmap.isEmpty = false
+    ∧ hasExternalOwners s2 tr.cmap = false
+    ∧ step s = s2.dropCycle tr.cmap
+    ∧ (step s).err = none
+    ∧ (∀ k, k ∈ tr.cmap.keys ↔ FwdReach s1 x k)
+    ∧ ∃ vs : List Val,
+        (step s).stack = vs.map Frame.dropVal ++ [Frame.phase3 tr.cmap.keys] ++ rest
+        ∧ ∀ m, FwdReach s1 x m →
+            ∃ v, (s.heap[m]?).bind (·.value) = some v
+              ∧ v ∈ vs
+              ∧ Frame.dropVal v ∈ (step s).stack
+              ∧ ∃ ob', (step s).heap[m]? = some ob' ∧ ob'.strong = .uninit ∧ ob'.value = none
+                  ∧ ob'.links = none :=
+  C03_group_collected s x rest ob n t herr hI hst hc hs hl hne hi hii hiii hiv
+
+/-- the last-handle rule for an object with any link table: dropping the last strong handle of `x`
+moves its value out and schedules its destructor in that very step, above the rest of the stack,
+and marks `x` uninit -/
+theorem C03_last_handle_with_adoptions (s : State) (x : Nat) (rest : List Frame) (ob : Obj)
+    (herr : s.err = none) (hI : s.Inv) (hst : s.stack = .rcDrop x :: rest)
+    (hc : s.cell x = some ob) (hs : ob.strong = .cnt 1) :
+    ∃ v, ob.value = some v
+      ∧ (step s).stack = Frame.dropVal v :: Frame.finishSingle x :: rest
+      ∧ Frame.dropVal v ∈ (step s).stack
+      ∧ ∃ ob', (step s).heap[x]? = some ob' ∧ ob'.strong = .uninit ∧ ob'.value = none :=
+  C03_last_handle_links s x rest ob herr hI hst hc hs
+
+/-- hypothesis (iv) of the group rule follows from (ii) and the adoption contract `P` -/
+theorem C03_no_stale_record_under_contract (s : State) (x : Nat) (hP : s.P)
+    (hii : ∀ m a, FwdReach s x m → ¬ FwdReach s x a → s.isLive a = true → s.H a m = 0) :
+    ∀ m a, FwdReach s x m → ¬ FwdReach s x a → s.isLive a = true → s.F a m = 0 :=
+  noStale_of_P s x hP hii
+
+
+/-! ### A positive instance of the group rule
+
+Ring x ↔ y (objects 0, 1) with a tail x → z₁ → z₂ (objects 2, 3), all built with `link`; an outsider
+(object 4) that adopts and holds object 5; a Weak handle to y; the program has dropped its handles
+to y, z₁, z₂ and now drops its only handle to x.  `groupStart` is the state in which that `drop` has
+pushed its `rcDrop 0` frame: x has count 2 (the program's handle and y's). -/
+
+def groupBuild : List (Op × List Nat) :=
+  [(.act .new, []), (.act .new, []), (.act .new, []), (.act .new, []),
+   (.act (.clone 1), []), (.act (.link 4 0), []),     -- x adopts and holds y
+   (.act (.clone 0), []), (.act (.link 4 1), []),     -- y adopts and holds x
+   (.act (.clone 2), []), (.act (.link 4 0), []),     -- x → z₁
+   (.act (.clone 3), []), (.act (.link 4 2), []),     -- z₁ → z₂
+   (.act .new, []), (.act .new, []), (.act (.link 5 4), []),  -- outsider 4 → 5
+   (.act (.downgrade 1), []),                         -- a Weak to y
+   (.act (.drop 1), []), (.act (.drop 1), []), (.act (.drop 1), [])]
+
+def groupStart : State := applyOp ((run groupBuild).begin []) (.act (.drop 0))
+
+/-- object x as it is in `groupStart` -/
+def groupX : Obj :=
+  { strong := .cnt 2, weak := 1,
+    links := some [(⟨1, .fwd⟩, 1), (⟨1, .bwd⟩, 1), (⟨2, .fwd⟩, 1)],
+    value := some { vid := 0, held := [1, 2], weaks := [], script := [], panics := false },
+    freed := false }
+
+/-- the state in which the trace runs -/
+abbrev groupS1 : State := groupStart.decTop [] 0 groupX 0
+
+theorem groupStart_reachable : Reachable groupStart :=
+  .op (.act (.drop 0)) [] (run_reachable groupBuild) (by decide +kernel)
+
+example : groupStart.err = none ∧ groupStart.stack = [.rcDrop 0] ∧ groupStart.roots = [4]
+    ∧ groupStart.wroots = [1] ∧ groupStart.cell 0 = some groupX
+    ∧ groupStart.heap.map (·.strong) = [.cnt 2, .cnt 1, .cnt 1, .cnt 1, .cnt 1, .cnt 1] := by
+  decide +kernel
+
+/-- `FwdReach` from x in `groupS1` is membership in the visited list of the trace (`cycleRefs_spec`),
+which evaluates to `[1, 3, 2, 0]`: this turns the quantifiers of hypotheses (i)–(iv) into bounded
+ones -/
+theorem groupS1_fwdReach (m : Nat) : FwdReach groupS1 0 m ↔ m ∈ [1, 3, 2, 0] := by
+  have hb : (cycleRefs groupS1 0).bad = none := by decide +kernel
+  have hf : (cycleRefs groupS1 0).outOfFuel = false := by decide +kernel
+  have hv : (cycleRefs groupS1 0).visited = [1, 3, 2, 0] := by decide +kernel
+  have sp := cycleRefs_spec groupS1 0 hb hf
+  rw [← hv]
+  exact ⟨sp.2.2.2.2.2.2.1 m, sp.2.2.2.2.1 m⟩
+
+/-- all eleven hypotheses of `C03_group_rule` hold in `groupStart` (the four quantified ones after
+bounding them by `groupS1_fwdReach` and the heap length, each by evaluation), and the theorem
+yields: the step raises no error, the keys of the cycle map are exactly the group, the stack becomes
+the members' destructors followed by `phase3`, and each of x, y, z₁, z₂ has its value moved out
+(its destructor is on the stack) and is marked `uninit` with value and table gone -/
+theorem C03_group_rule_instance :
+    (step groupStart).err = none
+    ∧ (∀ k, k ∈ (cycleRefs groupS1 0).cmap.keys ↔ FwdReach groupS1 0 k)
+    ∧ ∃ vs : List Val,
+        (step groupStart).stack
+          = vs.map Frame.dropVal ++ [Frame.phase3 (cycleRefs groupS1 0).cmap.keys]
+        ∧ ∀ m, m < 4 →
+            ∃ v, (groupStart.heap[m]?).bind (·.value) = some v
+              ∧ Frame.dropVal v ∈ (step groupStart).stack
+              ∧ ∃ ob', (step groupStart).heap[m]? = some ob' ∧ ob'.strong = .uninit
+                  ∧ ob'.value = none ∧ ob'.links = none := by
+  have hlen : groupS1.heap.length = 6 := by decide +kernel
+  have h := C03_group_rule groupStart 0 [] groupX 0
+    [(⟨1, .fwd⟩, 1), (⟨1, .bwd⟩, 1), (⟨2, .fwd⟩, 1)]
+    (by decide +kernel) (reachable_Inv groupStart_reachable) (by decide +kernel)
+    (by decide +kernel) rfl rfl rfl
+    (fun m hm => by
+      have key : ∀ m ∈ [1, 3, 2, 0], groupS1.ext m = 0 ∧ groupS1.pend m = 0 := by decide +kernel
+      exact key m ((groupS1_fwdReach m).mp hm))
+    (fun m a hm ha hl => by
+      have key : ∀ m ∈ [1, 3, 2, 0], ∀ a, a < 6 → a ∉ [1, 3, 2, 0] → groupS1.isLive a = true →
+          groupS1.H a m = 0 := by decide +kernel
+      exact key m ((groupS1_fwdReach m).mp hm) a (hlen ▸ State.isLive_lt hl)
+        (fun h => ha ((groupS1_fwdReach a).mpr h)) hl)
+    (fun m a hm ha => by
+      have key : ∀ m ∈ [1, 3, 2, 0], ∀ a ∈ [1, 3, 2, 0], groupS1.H a m ≤ groupS1.F a m := by
+        decide +kernel
+      exact key m ((groupS1_fwdReach m).mp hm) a ((groupS1_fwdReach a).mp ha))
+    (fun m a hm ha hl => by
+      have key : ∀ m ∈ [1, 3, 2, 0], ∀ a, a < 6 → a ∉ [1, 3, 2, 0] → groupS1.isLive a = true →
+          groupS1.F a m = 0 := by decide +kernel
+      exact key m ((groupS1_fwdReach m).mp hm) a (hlen ▸ State.isLive_lt hl)
+        (fun h => ha ((groupS1_fwdReach a).mpr h)) hl)
+  obtain ⟨-, -, -, herr, hkeys, vs, hstack, hmem⟩ := h
+  refine ⟨herr, hkeys, vs, by simpa using hstack, ?_⟩
+  intro m hm
+  obtain ⟨v, h1, -, h3, h4⟩ := hmem m ((groupS1_fwdReach m).mpr (by
+    have : m = 0 ∨ m = 1 ∨ m = 2 ∨ m = 3 := by omega
+    rcases this with rfl | rfl | rfl | rfl <;> simp))
+  exact ⟨v, h1, h3, h4⟩
+
+/-- the same step by evaluation: the four destructors and `phase3` on the stack, the outsiders
+untouched -/
+example : (step groupStart).stack =
+      [.dropVal { vid := 1, held := [0], weaks := [], script := [], panics := false },
+       .dropVal { vid := 2, held := [3], weaks := [], script := [], panics := false },
+       .dropVal { vid := 0, held := [1, 2], weaks := [], script := [], panics := false },
+       .dropVal { vid := 3, held := [], weaks := [], script := [], panics := false },
+       .phase3 [1, 2, 0, 3]]
+    ∧ (step groupStart).heap.map (·.strong) = [.uninit, .uninit, .uninit, .uninit, .cnt 1, .cnt 1] := by
+  decide +kernel
+
+/-- … and the whole operation: all four destructors have run when the `drop` returns; the three
+allocations without Weak handles are released, y's is kept by its Weak; the outsiders are live -/
+example : let s := run (groupBuild ++ [(.act (.drop 0), [])])
+    s.err = none ∧ s.stack = []
+    ∧ s.log = [.traced 1 4 5, .traced 2 2 2, .traced 3 1 1,      -- the three earlier drops
+               .traced 0 4 5, .destroyed 1, .destroyed 2, .destroyed 0, .destroyed 3,
+               .freed 2, .freed 0, .freed 3]
+    ∧ s.isLive 4 = true ∧ s.isLive 5 = true ∧ (s.cell 1).isSome = true := by
+  decide +kernel
 
 
 /-! ## The cascade rule, as a statement about operation boundaries
@@ -112,5 +284,24 @@ theorem C03_handleless_object_is_destroyed {s : State} (h : Reachable s) (he : s
       have hl : s.isLive t = true := (State.isLive_eq_true_iff s t).mpr ⟨ob, n, hg, hf, hs⟩
       have := C03_no_live_object_without_a_handle h he hq hl
       omega
+
+/-- the cascade rule instantiated on the history of the positive instance above, after the
+collecting `drop` has returned: the two objects that are still live (the outsiders 4 and 5) each have
+a handle, and y (object 1), all of whose handles were owned by values destroyed in that operation,
+has had its value destroyed although its allocation is kept by a Weak -/
+example : 0 < (run (groupBuild ++ [(.act (.drop 0), [])])).ext 5
+      + (run (groupBuild ++ [(.act (.drop 0), [])])).inHeap 5 :=
+  C03_no_live_object_without_a_handle (run_reachable _) (by decide +kernel) (by decide +kernel)
+    (by decide +kernel)
+
+example : ∀ ob, (run (groupBuild ++ [(.act (.drop 0), [])])).heap[1]? = some ob → ob.value = none :=
+  fun _ hg => C03_handleless_object_is_destroyed (run_reachable _) (by decide +kernel)
+    (by decide +kernel) hg (by decide +kernel)
+
+example : let s := run (groupBuild ++ [(.act (.drop 0), [])])
+    s.ext 5 = 0 ∧ s.inHeap 5 = 1 ∧ s.ext 1 + s.inHeap 1 = 0 ∧ s.wroots = [1]
+    ∧ (s.heap[1]?).map (fun ob => (ob.strong, ob.weak, ob.value.isSome, ob.freed))
+        = some (.uninit, 1, false, false) := by
+  decide +kernel
 
 end Cactus
